@@ -211,6 +211,18 @@ pub fn exec(case: &Value) -> Value {
                     a.push(key(f.sample(&mut g1)));
                     b.push(key(f.sample(&mut g2)));
                 }
+                "iterstate" => {
+                    // samples() advances the CALLER's generator: what is drawn afterwards continues the sequence
+                    let kk = 1 + (st % 4) as usize;
+                    let got: Vec<f32> = f.samples(&mut g1).take(kk).collect();
+                    a.extend(got.iter().map(|c| key(*c)));
+                    a.push(key(f.sample(&mut g1)));
+                    let again: Vec<f32> = f.samples(&mut g1).take(2).collect();
+                    a.extend(again.iter().map(|c| key(*c)));
+                    for _ in 0..kk + 3 {
+                        b.push(key(f.sample(&mut g2)));
+                    }
+                }
                 "tuple" => {
                     let (x, (y, z)) = (f.clone(), (i.clone(), Bernoulli(0.5))).sample(&mut g1);
                     a.extend([key(x), y as i64, z as i64]);
@@ -377,7 +389,9 @@ pub fn gen(args: &Args, out: &mut dyn Write) {
         emit(out, json!({"op": "step", "s": limbs(*s)}));
     }
     // Uniform<f32>: every mantissa (thorough) or a strided sweep plus the extremes (quick)
-    let ranges: [(f32, f32); 14] = [
+    let ranges: [(f32, f32); 17] = [
+        // (ranges whose width overflows: every sample is still a number of the range)
+        (f32::MIN, f32::MAX), (-3.0e38, 3.0e38), (-3.0e38, 1.0),
         (0.0, 1.0), (-1.0, 1.0), (-1.23, 4.56), (0.0, 1000.0), (100.0, 101.0), (1000.0, 1001.0),
         (1.0e6, 1.0e6 + 1.0), (0.0, 1e-8), (-1e-3, 1e-3), (-5.0, -2.0), (-1001.0, -1000.0),
         (0.5, 0.5000001), (3.0, 3.0000005), (-1.0e-30, 1.0e-30),
@@ -476,7 +490,7 @@ pub fn gen(args: &Args, out: &mut dyn Write) {
     }
     // composite distributions and reproducibility
     for i in 0..(if thorough { 30_000 } else { 3_000 }) {
-        let what = ["array", "vec", "point", "tuple", "iarray", "same", "iterskip", "flat"][i % 8];
+        let what = ["array", "vec", "point", "tuple", "iarray", "same", "iterskip", "flat", "iterstate"][i % 9];
         emit(out, json!({"op": "seq", "s": limbs(rng.next() | 1), "what": what}));
     }
 }
